@@ -778,14 +778,23 @@ func (fc *FuncCtx) rangeInit(fr *Frame, st *State, x *ssa.Range) {
 	xv := fc.value(fr, x.X)
 	switch u := x.X.Type().Underlying().(type) {
 	case *types.Map:
-		// the iterator: ghost set of visited keys is not tracked; each Next returns
-		// an arbitrary key of the domain (arbitrary order) or ok=false.
-		fr.regs[x] = Val{T: xv.T, Tup: nil, LV: &LVal{Kind: -1, Typ: u}}
+		// the iterator carries a ghost set of visited keys: each Next returns an
+		// arbitrary key of the domain that has not been visited yet (arbitrary
+		// order), or ok=false once every key of the domain has been visited.
+		h := iterHeapName(x)
+		ks := sortOf(u.Key())
+		fc.p.registerHeap(h, ArraySort(ks, SBool))
+		st.setH(h, constArray(ArraySort(ks, SBool), False))
+		fr.regs[x] = Val{T: xv.T, Tup: nil, LV: &LVal{Kind: -1, Typ: u, Heap: h}}
 	case *types.Basic:
 		fr.regs[x] = Val{T: xv.T, LV: &LVal{Kind: -2, Typ: u}}
 	default:
 		unsupp("range over %s", x.X.Type())
 	}
+}
+
+func iterHeapName(x *ssa.Range) string {
+	return "IT:" + funcKey(x.Parent()) + ":" + x.Name()
 }
 
 func (fc *FuncCtx) rangeNext(fr *Frame, st *State, x *ssa.Next) {
@@ -823,8 +832,22 @@ func (fc *FuncCtx) rangeNext(fr *Frame, st *State, x *ssa.Next) {
 	}
 	st.assume(typeInv(mt.Key(), k, st.alloc))
 	st.assume(Implies(ok, And(Neq(it.T, IntLit(0)), dom)))
+	if it.LV.Heap != "" {
+		vis := st.H(fc.p, it.LV.Heap)
+		st.assume(Implies(ok, Not(Select(vis, k))))
+		// exhausted: every key of the domain has been visited
+		kk := BVar("mk", sortOf(mt.Key()))
+		var domk *Term
+		if tb := fc.p.tableOfRef(it.T); tb != nil {
+			domk = tb.domTerm(kk)
+		} else {
+			domk = And(Neq(it.T, IntLit(0)), Select(Select(st.H(fc.p, d), it.T), kk))
+		}
+		st.assume(Implies(Not(ok), Forall([]*Term{kk}, Implies(domk, Select(vis, kk)))))
+		st.setH(it.LV.Heap, Ite(ok, Store(vis, k, True), vis))
+	}
 	fr.regs[x] = Val{Tup: []Val{{T: ok}, {T: k}, {T: val}}}
-	fc.note("map range: keys are visited in an arbitrary order; which keys remain is not tracked (each step yields an arbitrary key of the domain)")
+	fc.note("map range: keys are visited in an arbitrary order, each key of the domain exactly once (ghost visited set); the map must not be updated inside the loop")
 }
 
 func (fc *FuncCtx) goStmt(fr *Frame, st *State, x *ssa.Go) {
